@@ -26,3 +26,15 @@ package controller
 //@   calls Header.Set#1: requires $0 == "Authorization" && $1 == "Bearer " + token
 //@   at loop 1 back: assert !has(updatedReq.Header, "Authorization")
 //@   loop 1: invariant !has(updatedReq.Header, "Authorization")
+
+// ------------------------------------------------------------------- C18
+// rewriteSignatures (legacy proxy path): the rewritten collection is returned
+// only if the hash computed over the received manifest (locators reduced to
+// hash+size) equals the record's portable data hash and the requested one; a
+// signed locator token is written out as hash, size, leading hints, then
+// +R<cluster>-<signature>@<expiry>, then all trailing hints; the hasher gets
+// hash+size only.
+//@ func rewriteSignatures property C18 safety -bounds
+//@   calls fmt.Fprintf#1: requires $1 == "%s%s%s+R%s-%s%s" && $2[0] == iface(m[1]) && $2[1] == iface(m[2]) && $2[2] == iface(m[3]) && $2[3] == iface(clusterID) && $2[4] == iface(m[5][2:]) && $2[5] == iface(m[8])
+//@   calls fmt.Fprintf#2: requires $0 == hasher && $1 == "%s%s" && $2[0] == iface(m[1]) && $2[1] == iface(m[2])
+//@   calls json.Marshal#1: requires computedHash == col.PortableDataHash && (old(expectHash) == "" || old(expectHash) == col.PortableDataHash)
